@@ -164,6 +164,55 @@ impl asp::Rule {
 //@     proof { lemma_int_vars_final2(vars@, *r); }
 //@end
 
+// ---- bodies --------------------------------------------------------------------------------------------------------------
+impl vstd::std_specs::convert::FromSpecImpl<asp::Relation> for Relation {
+    open spec fn obeys_from_spec() -> bool { true }
+    open spec fn from_spec(v: asp::Relation) -> Relation { rel_of(v) }
+}
+impl From<asp::Relation> for Relation {
+//@fn src/syntax_tree/fol/sigma_0.rs :: impl From<crate::syntax_tree::asp::mini_gringo::Relation> for Relation :: fn from
+//@ .ret r
+//@ .spec
+//@     ensures r == rel_of(value),
+//@end
+}
+
+//@fn src/translating/formula_representation/natural.rs :: fn natural_comparison
+//@ .ret r
+//@ .spec
+//@     ensures r matches Some(f) ==> nat_cmp_shape(f, *c, int_vars@),
+//@end
+
+//@fn src/translating/formula_representation/natural.rs :: fn natural_b_atom
+//@ .ret r
+//@ .attr #[verifier::loop_isolation(false)]
+//@ .spec
+//@     ensures r matches Some(a) ==> p2f_all_some(l.terms@, int_vars@) && a.predicate_symbol@ == l.predicate_symbol@ && a.terms@ == p2f_seq(l.terms@, int_vars@),
+//@ .loop 1 as it
+//@     invariant
+//@         it.seq().len() == l.terms@.len(), forall|q: int| 0 <= q < l.terms@.len() ==> *it.seq()[q] == l.terms@[q],
+//@         d27_0_out@.len() == it.index@,
+//@         forall|q: int| 0 <= q < it.index@ ==> (#[trigger] spec_p2f(l.terms@[q], int_vars@)) is Some && d27_0_out@[q] == spec_p2f(l.terms@[q], int_vars@)->Some_0,
+//@end
+
+//@fn src/translating/formula_representation/natural.rs :: fn natural_b_literal
+//@ .ret r
+//@ .spec
+//@     ensures r matches Some(f) ==> nat_lit_shape(f, *l, int_vars@),
+//@end
+
+//@fn src/translating/formula_representation/natural.rs :: fn natural_body
+//@ .ret r
+//@ .attr #[verifier::loop_isolation(false)]
+//@ .spec
+//@     ensures r matches Some(f) ==> nat_body_shape(f, b.formulas@, int_vars@),
+//@ .loop 1 as it
+//@     invariant
+//@         it.seq().len() == b.formulas@.len(), forall|q: int| 0 <= q < b.formulas@.len() ==> *it.seq()[q] == b.formulas@[q],
+//@         formulas@.len() == it.index@,
+//@         forall|q: int| 0 <= q < it.index@ ==> #[trigger] nat_af_shape(formulas@[q], b.formulas@[q], int_vars@),
+//@end
+
 // ---- heads: fresh integer variables for interval arguments -------------------------------------------------------------------
 pub open spec fn names_seq(vs: Seq<asp::Variable>) -> Seq<Seq<char>> { vs.map_values(|v: asp::Variable| v.0@) }
 pub proof fn lemma_names_seq(vs: Seq<asp::Variable>, x: asp::Variable)
